@@ -97,6 +97,11 @@ def plan(plan, tier, seed):
         verus_units(plan)
     except vlib.AnchorLost as e:
         plan.anchor_errors.append(("C07.pure.*", str(e)))
+    try:
+        from units import vC07
+        vC07.add_units(plan, "C07")
+    except Exception as e:
+        plan.anchor_errors.append(("C07.verus.decode_instructions.*", repr(e)))
     with open(os.path.join(VERIF, "contracts", "C07", "kani_program.rs")) as f:
         text = f.read()
     plan.harness_files[os.path.join(vlib.GEN, "C07", "kani_program.rs")] = text
